@@ -8,6 +8,7 @@ import (
 
 	"github.com/pentops/j5/gen/j5/schema/v1/schema_j5pb"
 	"github.com/pentops/j5/gen/j5/sourcedef/v1/sourcedef_j5pb"
+	"github.com/pentops/j5/internal/bcl/errpos"
 )
 
 type SchemaVisitor interface {
@@ -292,7 +293,12 @@ func (on *propertySet) RangeProperties(visitor PropertyVisitor) error {
 	for _, prop := range on.properties {
 		err := prop.accept(visitor)
 		if err != nil {
-			return fmt.Errorf("at property %s: %w", prop.schema.Name, err)
+			err = fmt.Errorf("at property %s: %w", prop.schema.Name, err)
+			if pos := prop.source.GetPos(); pos != nil {
+				// keeps a position the error already carries
+				err = errpos.AddPosition(err, *pos)
+			}
+			return err
 		}
 	}
 	return nil
